@@ -113,8 +113,8 @@ def check(ctx, rep):
              "or acts on a path of shape root + accepted selector + safe suffix (R01b, R01h)", floor=20)
     rep.rule("R01g", "percent-decoding appears only in protocol handle() before handler selection; none in handlers/", floor=4)
     rep.rule("R01i", "handlers that hand getfspath() to real-file APIs reject non-real VFS objects", floor=3)
-    rep.rule("R01l", "what the stat on the unfiltered selector found reaches only the handlers (no existence oracle in the multiplexer's own reply)", floor=2)
-    rep.rule("R01k", "a NUL byte is answered like any missing file: the stat on the unfiltered selector also catches ValueError", floor=2)
+    rep.rule("R01l", "what the stat on the unfiltered selector found reaches only the handlers (no existence oracle in the multiplexer's own reply)", floor=1)
+    rep.rule("R01k", "a NUL byte is answered like any missing file: the stat on the unfiltered selector also catches ValueError", floor=1)
     rep.rule("R01j", "arguments of eval/exec/compile/__import__ have configuration provenance only", floor=5)
 
     if base is None or filt_func is None:
@@ -173,7 +173,9 @@ def check(ctx, rep):
         rep.fail("R01c", "HandlerMultiplexer.getHandler", detail="handler multiplexer not found")
     else:
         rep.analysed(gh.qualname)
-        w = Walker(prog, ctx.resolver)
+        # the search may live in a helper of the multiplexer's module (a loop, or a generator of candidates)
+        w = Walker(prog, ctx.resolver, inline=lambda fn, t, d: d < 3 and fn.cls is None and fn.module is gh.module and fn is not gh
+                   and fn.name != "init_default_handlers")
         problems = []
         n_ret = 0
         for p in w.run(gh):
@@ -182,8 +184,14 @@ def check(ctx, rep):
                 ret = [e for e in p.events if e.kind == "return"][-1]
                 val = ret.node.value
                 recv = None
+                ghc = [e for e in p.events if e.kind == "call" and isinstance(e.node.func, ast.Attribute) and e.node.func.attr == "gethandler"]
+                inner_rets = [e for e in p.events if e.kind == "return" and e.node.value is not None]
                 if isinstance(val, ast.Call) and isinstance(val.func, ast.Attribute) and val.func.attr == "gethandler":
                     recv = norm(val.func.value)
+                elif ghc:
+                    recv = norm(ghc[-1].node.func.value)
+                elif inner_rets and isinstance(inner_rets[0].node.value, ast.Name):
+                    recv = norm(inner_rets[0].node.value)
                 elif val is not None:
                     recv = norm(val)
                 ok = any(ev.kind == "test" and ev.extra is True and norm(ev.node) == f"{recv}.isrequestforme()" for ev in p.events)
